@@ -2,6 +2,7 @@ import EaselModel.Core.Proto
 import EaselModel.Buffer.Model
 import EaselModel.Buffer.SpecHist
 import EaselModel.Buffer.Safe
+import EaselModel.Buffer.MemDriver  -- round4-mem
 /-! Line-protocol driver for the C05 model (esl_buffer.c).
 
   open mode=<string|stream|pipe|file|allfile|mmap|auto|open> ps=<pagesize> hex=<input bytes>
@@ -73,6 +74,9 @@ structure DState where
 
 def stepLine (st : Option DState) (line : String) : Option DState × String :=
   let ws := words line
+  match EaselModel.Buffer.Mem.memLine ws with   -- round4-mem
+  | some ans => (st, ans)                       -- round4-mem
+  | none =>
   if ws.head? == some "open" then
     match (arg? ws "mode").bind parseMode, argNat? ws "ps", argHex? ws "hex" with
     | some m, some ps0, some unit =>
